@@ -262,3 +262,25 @@ class Outcome:
                 print("  class: %s (%d occurrence%s)" % (key, len(vs), "" if len(vs) == 1 else "s"))
             return 1
         return 0
+
+
+# --------------------------------------------------------------------------- L1 -> L0 refinement and its spec mutants
+REFINE_MUTANTS = ["no-length-prefix", "prefix-tag", "header-not-authenticated", "empty-pieces-dropped"]
+
+
+def refinement(out, name, full):
+    """Non-vacuity control of the design-level argument: every deliberately broken variant of the L1 construction
+    (spec/neg/) must be REJECTED by TLC (invariant Refines violated); with full=True the real construction is also
+    model-checked against L0's acceptance rule with the byte-level attacker (about 4 million states)."""
+    rejected = []
+    for v in REFINE_MUTANTS:
+        r = tlc("MC_Refine", "Refine_%s.cfg" % v, "neg", name + "-neg-" + v, workers=8, timeout=1800)
+        if r.invariant_violated() != "Refines":
+            raise ToolError("model vacuous: the broken construction '%s' was not rejected by the refinement check" % v)
+        rejected.append(v)
+    out.extra["spec_mutants_rejected"] = rejected
+    if full:
+        r = tlc("MC_Refine", "Refine_spec.cfg", "mc", name + "-refine", workers=12, timeout=7200, heap="16g")
+        tlc_must_pass(r, "MC_Refine")
+        out.add_tlc(r)
+        out.extra["refinement_states"] = r.distinct
